@@ -232,12 +232,51 @@ PROPS['C17'] = {
     'not_decided': ['encoding_rs decode/encode contracts', 'decode_file: replacements => Err and "decode exactly the rest" (read)'],
     'explanation': MC_TEXT,
 }
+PROPS['C12'] = {
+    'title': 'Multi-line string literals keep their value',
+    'level': 'exploration',
+    'vx': {}, 'kx': {},
+    'nx': {'mlstring': 'contract of try_rewrite_string / lines_custom executed natively on the real code over an exhaustively enumerated small domain (bounded stand-in)'},
+    'kx_extra': {},
+    'not_decided': ['NOT A PROOF: bounded stand-in only (function outside the Verus subset; Kani did not terminate)',
+                    'format_multiline_strings: choice of the base indentation from the last line, the byte-for-byte path for format_multiline_strings=false (decided for the post-pass in wrapperedge), the forced break before a multi-line literal (wrapperedge invariants)',
+                    'lexer recognition of the literal (lexcomplex: multi-line opener clause only)'],
+    'explanation': 'The property is a contract on one function. That function cannot be brought within reach of either verifier (DESIGN.md 3, 6), so - as the only '
+                   'claim - its contract is checked by a bounded stand-in: native execution of the real function against an independent oracle for every input of an '
+                   'exhaustively enumerated small domain. Labelled bounded; nothing is counted as proved.',
+    'technique': 'bounded stand-in for a function outside verifier reach: the contract of try_rewrite_string executed natively on the real code over an exhaustively enumerated domain (not deductive; labelled bounded, never counted as proved)',
+}
+PROPS['C01']['nx'] = {'mlstring': 'L3 (third text-replacing rule): re-indentation of multi-line strings keeps every interior line\'s value (bounded stand-in)'}
+PROPS['C01']['not_decided'][0] = 'multi-line string re-indentation is covered only by a bounded stand-in (native exhaustive execution), not by a proof'
+PROPS['C03']['nx'] = {'mlstring': 're-indenting a re-indented literal is the identity (bounded stand-in)'}
+PROPS['C09']['nx'] = {'mlstring': 'interior lines of a re-indented literal are re-joined with the configured line ending; LF, CR and CRLF all end a line (bounded stand-in)'}
+PROPS['C09']['not_decided'] = ['line terminators inside re-indented multi-line strings: bounded stand-in only']
+STANDIN = 'bounded stand-in for a function outside verifier reach: its contract executed natively on the real code over an exhaustively enumerated domain (not deductive; labelled bounded, never counted as proved)'
+PROPS['C14'] = {
+    'title': 'Parsing yields well-formed logical lines that cover every token',
+    'level': 'exploration',
+    'vx': {}, 'kx': {},
+    'nx': {'parsecover': 'output contract of DelphiLogicalLineParser::parse executed natively for every token soup of <= 4 items over a 22-item alphabet and 39 204 well-formed programs (bounded stand-in)'},
+    'not_decided': ['NOT A PROOF: bounded stand-in only (the parser is outside the Verus subset and Kani did not terminate on its primitives)',
+                    'inputs longer than 4 alphabet items that are not in the well-formed list; token kinds outside the alphabet'],
+    'explanation': 'The property is the output contract of one function, parse(). Neither verifier reaches it (DESIGN.md 3, 6), so the only claim is a bounded stand-in: the '
+                   'contract is executed natively on the real parser, under a per-input watchdog, over an exhaustively enumerated small domain. This stand-in found three '
+                   'defects in the parser (a debug-build underflow, an unwrap on truncated input, an endless loop), all repaired.',
+    'technique': STANDIN,
+}
+PROPS['C13']['nx'] = {'avx2': 'the AVX2 routine and the run-time dispatch agree with the scalar routine on 0.9 million (text, offset) pairs (bounded stand-in for the intrinsics code)'}
+PROPS['C13']['not_decided'] = ['the AVX2 identifier routine and its run-time dispatch: bounded stand-in only (native differential execution), not proved',
+                               'composition dispatch-table + sub-scanner contracts => lex_token contract is an argument on paper']
+PROPS['C15']['nx'] = {'cursorrt': 'process_cursors followed by relocate_cursors is the identity on every cursor inside / at the end of a token when the text is unchanged; beyond the end maps to the end; always within the output on a character boundary (bounded stand-in)'}
+PROPS['C15']['not_decided'] = ['the attachment step process_cursors: bounded stand-in only', 'tracking never alters the result: type-level frame (relocate_cursors takes &FormattedTokens)']
+PROPS['C04']['nx'] = {'parsecover': 'parse() returns (no panic, no endless loop under a 5 s watchdog) for every token soup of <= 4 items and 39 204 well-formed programs (bounded stand-in)'}
+PROPS['C01']['nx']['directive'] = 'directive normalisation changes only ASCII letter case (bounded stand-in)'
+PROPS['C02']['nx'] = {'directive': 'directive normalisation keeps length, opener and everything after the directive name (bounded stand-in)'}
+PROPS['C03']['nx']['directive'] = 'directive normalisation is a fixpoint (bounded stand-in)'
 for _p in PROPS.values():
     _p.setdefault('level_text', _p.get('explanation', ''))
 
 NOT_APPLICABLE = {
-    'C12': 'the property is a contract on try_rewrite_string/lines_custom; Verus rejects its iterator/closure code and Kani did not finish even lines_custom alone on 6 bytes within 12 minutes (DESIGN.md 3, 6)',
-    'C14': 'needs contracts on DirectiveTree pass construction and the parser token primitives; Verus rejects them (iterator-generic recursion, fn-pointer predicates) and Kani finished neither on 2-3 tokens (DESIGN.md 3, 6)',
     'C18': 'quantifies over schedules of a rayon pool: Kani has no threads, Verus would need the code rewritten onto its permission types (a model) (DESIGN.md 6)',
     'C19': 'precedence lives in config::ConfigBuilder, serde(deny_unknown_fields), clap and a directory walk on the real file system: no function-level contract of repository code can express it (DESIGN.md 6)',
 }
